@@ -13,8 +13,8 @@ use serde_json::json;
 use std::collections::{BTreeMap, BTreeSet};
 use std::sync::Arc;
 
-pub const BIG_Q: [usize; 5] = [12, 33, 34, 65, 100];
-pub const BIG_T: [usize; 14] = [12, 17, 31, 32, 33, 34, 35, 63, 64, 65, 66, 70, 129, 130];
+pub const BIG_Q: [usize; 6] = [12, 33, 34, 65, 100, 257];
+pub const BIG_T: [usize; 16] = [12, 17, 31, 32, 33, 34, 35, 63, 64, 65, 66, 70, 129, 130, 257, 300];
 
 pub fn big_orders(thorough: bool) -> Vec<usize> {
     if thorough { BIG_T.to_vec() } else { BIG_Q.to_vec() }
@@ -115,7 +115,9 @@ pub fn trav_big(which: &'static str, thorough: bool) -> Space {
         if which == "johnson" {
             // circuits explode on dense shapes: the sparse ones only
             // only shapes whose number of circuits is at most linear in n
-            const FEW: [&str; 12] = ["path", "reverse path", "circuit", "cycle", "star out", "star both", "binary tree", "binary tree with back arcs to the root", "two circuits sharing vertex 0", "three components", "descending chain with shortcuts to 0", "path with hops of 32"];
+            // (and whose number of simple paths is polynomial, so that the reference enumeration
+            // stays cheap: "path with hops of 32" is acyclic but has exponentially many simple paths)
+            const FEW: [&str; 11] = ["path", "reverse path", "circuit", "cycle", "star out", "star both", "binary tree", "binary tree with back arcs to the root", "two circuits sharing vertex 0", "three components", "descending chain with shortcuts to 0"];
             if FEW.contains(&name.as_str()) {
                 johnson_check(&abs, ctx);
             } else {
